@@ -320,8 +320,9 @@ impl<'a, B, OC, SC, L> StorageResolver<'a, B, OC, SC, L> {
 
 /// loads one thread may have in progress at a time (a page tree sixteen levels deep needs about twenty)
 const MAX_NESTED_LOADS: usize = 64;
-/// loads that one outermost load may cause altogether
-const MAX_LOADS_PER_CALL: usize = 4096;
+/// loads that one outermost load may cause altogether. large structure trees and forms are loaded
+/// eagerly and need many; the bound only keeps fan-out from running for ever
+const MAX_LOADS_PER_CALL: usize = 1 << 20;
 
 struct Defer<F: FnMut()>(F);
 impl<F: FnMut()> Drop for Defer<F> {
